@@ -36,6 +36,23 @@ def which_set(t):
     return None
 
 
+def resolve(t, v):
+    """specialise a term to value = v: γ on the `value` parameter picks its arm, projections of tuple literals reduce"""
+    t = strip(t)
+    if not isinstance(t, tuple) or not t:
+        return t
+    if t[0] == "gamma" and strip(t[1]) == ("param", 3) and v is not None:
+        return resolve(pick(t[2], v), v)
+    if t[0] == "field" and isinstance(t[1], tuple):
+        inner = resolve(t[1], v)
+        if isinstance(inner, tuple) and inner and inner[0] == "agg" and inner[1] == "tuple" and str(t[2]).isdigit() and int(t[2]) < len(inner[4]):
+            return resolve(inner[4][int(t[2])], v)
+        return ("field", inner) + tuple(t[2:])
+    if t[0] in ("ref", "deref", "mut"):
+        return resolve(t[1], v)
+    return t
+
+
 def pick(arms, v):
     """arm of a gamma for an integer condition value"""
     for lab, val in arms:
@@ -69,9 +86,42 @@ def ev(t, env):
         return ("None",) if t[3] == "None" else ("Some", ev(t[4][0], env))
     if k == "bin" and t[1] in ("Eq", "Ne", "BitOr", "BitAnd"):
         a, b = ev(t[2], env), ev(t[3], env)
-        return {"Eq": int(a == b), "Ne": int(a != b), "BitOr": a | b, "BitAnd": a & b}[t[1]]
+        if t[1] in ("BitOr", "BitAnd") and (isinstance(a, tuple) or isinstance(b, tuple)):
+            raise Und("bit operation on a non-scalar")
+        if t[1] == "Eq":
+            return int(a == b)
+        if t[1] == "Ne":
+            return int(a != b)
+        return (a | b) if t[1] == "BitOr" else (a & b)
     if k == "un" and t[1] == "Not":
         return 1 - ev(t[2], env)
+    if k == "phi":
+        te_ = env.get("te")
+        if te_ is None:
+            raise Und("join")
+        cands = []
+        for pb, v in t[2]:
+            pbn = int(str(pb).replace("bb", "")) if not isinstance(pb, int) else pb
+            ok, spec = True, 0
+            for c, val, _, _ in te_.facts_at(pbn):
+                try:
+                    got = ev(c, env)
+                except Und:
+                    continue
+                if isinstance(got, tuple):
+                    continue
+                spec += 1
+                if bool(got) != (val != "0"):
+                    ok = False
+            if ok:
+                cands.append((spec, v))
+        if not cands:
+            raise Und("no alternative of a join applies")
+        best = max(c[0] for c in cands)
+        vals = {repr(ev(v, env)) for sp, v in cands if sp == best}
+        if len(vals) == 1:
+            return ev([v for sp, v in cands if sp == best][0], env)
+        raise Und("ambiguous join")
     if k == "call":
         nm = t[1].name
         a = t[2]
@@ -85,6 +135,11 @@ def ev(t, env):
             return env["get"](env["state"])
         if nm == "polarity":
             return env["pol"]
+        if nm in ("is_some", "is_none") and a:
+            v = ev(a[0], env)
+            if not isinstance(v, tuple):
+                raise Und("is_some of a scalar")
+            return int((v != ("None",)) == (nm == "is_some"))
         if nm == "discr" or nm == "discriminant":
             v = ev(a[0], env)
             return 0 if v == ("None",) else 1
@@ -144,14 +199,17 @@ def mutator(fn, want):
                 val = lab if lab != "otherwise" else (1 - targets[0] if len(targets) == 1 else None)
             else:
                 raise Und("branch on %s" % show(c)[:40])
-        ops = []
-        for b, _ in p:
-            for cs in [c for c in te.calls if c.bb == b]:
-                if cs.callee.name in ("insert", "remove") and cs.args and which_set(cs.args[0]) is not None:
-                    if strip(cs.args[1]) != x:
-                        raise Und("set operation on another variable")
-                    ops.append((cs.callee.name, which_set(cs.args[0]), cs.line))
         for v in ([val] if val is not None else [0, 1]):
+            ops = []
+            for b, _ in p:
+                for cs in [c for c in te.calls if c.bb == b]:
+                    if cs.callee.name in ("insert", "remove") and cs.args and "VarSet" in cs.callee.key():
+                        w = which_set(resolve(cs.args[0], v))
+                        if w is None:
+                            raise Und("set operation on %s" % show(cs.args[0])[:50])
+                        if strip(cs.args[1]) != x:
+                            raise Und("set operation on another variable")
+                        ops.append((cs.callee.name, w, cs.line))
             for s0 in STATES:
                 s = list(s0)
                 for nm, w, _ in ops:
@@ -189,7 +247,7 @@ def run(prog):
             errs = []
             for s in STATES:
                 for pol in pols:
-                    env = {"state": s, "x": ("param", 2), "params": {}, "pol": pol, "get": spec_get}
+                    env = {"state": s, "x": ("param", 2), "params": {}, "pol": pol, "get": spec_get, "te": fn.terms}
                     if pol is not None:
                         env["x"] = None
                     got = ev_lit(fn, env) if pol is not None else ev(fn.terms.ret, env)
